@@ -27,6 +27,7 @@ import (
 
 	corev1 "k8s.io/api/core/v1"
 	kerrors "k8s.io/apimachinery/pkg/api/errors"
+	metav1 "k8s.io/apimachinery/pkg/apis/meta/v1"
 	"k8s.io/apimachinery/pkg/types"
 	"k8s.io/client-go/kubernetes"
 	"k8s.io/utils/ptr"
@@ -394,8 +395,9 @@ func (r *Reconciler) Reconcile(ctx context.Context, req reconcile.Request) (reco
 		// Set oldest revision to the lowest numbered revision that is not
 		// the current revision, and record its index. The current revision
 		// is never eligible for garbage collection, even if it carries the
-		// lowest number (e.g. after a rollback to an earlier image).
-		if revisionNum < oldestRevision {
+		// lowest number (e.g. after a rollback to an earlier image). Nor is
+		// a revision that another owner controls: it is not ours to delete.
+		if c := metav1.GetControllerOf(rev); revisionNum < oldestRevision && (c == nil || c.UID == p.GetUID()) {
 			oldestRevision = revisionNum
 			oldestRevisionIndex = index
 		}
@@ -423,7 +425,8 @@ func (r *Reconciler) Reconcile(ctx context.Context, req reconcile.Request) (reco
 	// Check to see if there are revisions eligible for garbage collection.
 	if p.GetRevisionHistoryLimit() != nil &&
 		*p.GetRevisionHistoryLimit() != 0 &&
-		len(revisions) > (int(*p.GetRevisionHistoryLimit())+1) {
+		len(revisions) > (int(*p.GetRevisionHistoryLimit())+1) &&
+		oldestRevisionIndex >= 0 {
 		gcRev := revisions[oldestRevisionIndex]
 		// Find the oldest revision and delete it.
 		if err := r.client.Delete(ctx, gcRev); err != nil {
